@@ -11,10 +11,21 @@ every such point the harness first performs the producer steps the schedule puts
 which is exactly a thread pre-empted between them.  `doIteration` is a stub (poll the waker; `doRead`); for asyncio the event loop is
 a stub with a FIFO of ready handles.
 
+The reactor's whole RUN is part of the case language (`eff`, `fired`, `pre`, `starting`): the body of a call may do the real
+`reactor.stop()` or fire the Deferred returned by a real 'before shutdown' system event trigger, so that schedules continue
+after `stop()` while shutdown is pending (`reactor.running` still True, `_stopped` already True), through `crash()` and the
+exit of `mainLoop`; producer steps may precede `run()`; startup may itself be pending on a Deferred (oracle-only).  These
+cases are compared with the life-cycle model (`TwistedModel/Reactor/ThreadQueueLife.lean`, driver op `lrun`).  The oracle
+asks for liveness exactly while `reactor.running` is True — the public attribute, read from the real reactor.
+
 Tie (b), supporting evidence only: the real select / poll / epoll / asyncio reactors in subprocesses
 with real producer threads, checked against the schedule-independent observables the model predicts
 (each call once, in the reactor thread, per-thread order).  Anything that depends on OS timing
 (a run that does not finish before its deadline) is reported as `inconclusive`, never as a violation.
+`reallife` runs do the same over the whole run (calls, `stop()`, calls while shutdown is pending on a Deferred, the last
+one fires it).  Their only timing-dependent verdict is doubly confirmed: a call counts as "waited for an unrelated event"
+only if it had not run 4 s + 20 s after being issued to an idle reactor AND ran as soon as the loop was given an unrelated
+event, and this must happen for two different calls of the run; anything less is `inconclusive`.
 """
 import array
 import collections
@@ -36,21 +47,35 @@ try:
 except Exception:
     pass
 
-HEADLINE = "TwistedProps.C13.each_call_runs_exactly_once / per_thread_fifo / no_lost_wakeup / all_calls_run"
+HEADLINE = ("TwistedProps.C13.each_call_runs_exactly_once / per_thread_fifo / no_lost_wakeup; over the reactor's whole run: "
+            "each_call_runs_exactly_once_while_running / calls_run_while_shutdown_pending / per_thread_fifo_lifecycle / "
+            "no_lost_wakeup_lifecycle")
 RULE = ("schedules of atomic steps (thread t: append | wakeUp; reactor: one shared access of runUntilCurrent/doIteration): "
         "every schedule over {R,0} up to length 9 and over {R,0,1} up to length 6, the (append, j reactor steps, wake) "
         "family from every reactor pc, random interleavings of 1..6 threads (bursts, starving reactor, settle tails), "
         "waker pipe filled to capacity (4096 / 16384 bytes: EAGAIN and partial 8192-byte reads); the same on the asyncio "
         "reactor with frozen / ticking / backwards clocks; plus real reactors with real threads; "
-        "distinct = (kind, #threads, final pc, blocked, waker class, appended-during-drain, mid-call thread, settled)")
+        "LIFE CYCLE: any call's body may do reactor.stop() or fire the Deferred a 'before shutdown' trigger returned (which may "
+        "also have fired before run()), so schedules continue while shutdown is pending, through crash and the exit of mainLoop: "
+        "every schedule over {R,0} up to length 9 with stop (and up to 8 with stop+fire), every {R,0,1} prefix up to length 5 "
+        "followed by a post-stop call, the (stop, append after a steps, wake after j steps) family with four effect assignments, "
+        "random interleavings with random effects, producer steps before run(), startup pending on a Deferred (oracle-only), "
+        "the same on the asyncio reactor (stop only); real reactors with real threads through stop()/pending/fire; "
+        "distinct = (kind, #threads, final pc, blocked, waker class, appended-during-drain, mid-call thread, settled, "
+        "final phase, Deferred fired, effects used, pre-run steps)")
 ASSUMES = [
     "CPython: list.append, len, list-iterator fetch, del l[:n], os.write, os.read are atomic (GIL); the model's steps are these",
     "OS scheduling is an arbitrary interleaving of those steps (every interleaving is covered by the theorems); "
     "select/poll/epoll/asyncio report a readable waker pipe (level-triggered) — supported by the real-reactor runs only",
     "timed calls and other I/O are outside the model (they only add iterations: the reactor never blocks less)",
+    "life cycle: the application is one 'before shutdown' trigger returning one Deferred, and calls that stop() / fire it; "
+    "stop() is called in the reactor thread (from a thread call); liveness is claimed while reactor.running is True "
+    "(a call still queued when crash() has run is not run: the reactor no longer runs); the 'startup pending' phase and the "
+    "asyncio reactor's exit (asyncio finishes the current batch of handles) are tied by the oracle / real runs only, not modelled",
     "threads finish callFromThread (a thread suspended for ever between append and wakeUp can delay its own call)",
 ]
-TRUSTED = ["the stub doIteration / stub asyncio loop of harness/corr/C13.py (poll the waker, doRead; FIFO of ready handles)"]
+TRUSTED = ["the stub doIteration / stub asyncio loop of harness/corr/C13.py (poll the waker, doRead, return at once when the "
+           "timeout mainLoop passed is not None; FIFO of ready handles + due timers)"]
 MANIFEST = {
     "text": "Lean theorems (TwistedProps/C13.lean) over ALL schedules of atomic steps of any number of producer threads and the "
             "reactor (model of callFromThread/wakeUp/runUntilCurrent drain/doIteration + pipe waker, parametric in pipe capacity, "
@@ -58,7 +83,12 @@ MANIFEST = {
             "ran ++ pending, filtered per thread, is exactly that thread's issue order (so every call runs at most once, in order, "
             "none is dropped); calls run only in reactor steps; a blocked reactor with a non-empty queue implies a thread still "
             "inside callFromThread (no lost wake-up); once every callFromThread has returned, the reactor alone runs every issued "
-            "call within an explicit number of its own steps.  The model is run against the real code on every schedule of the tie.",
+            "call within an explicit number of its own steps.  LIFE CYCLE (ThreadQueueLife: stop(), shutdown pending on a Deferred, "
+            "crash, exit of mainLoop; any assignment of stop/fire effects to calls): the same invariant, accounting, per-thread FIFO "
+            "and no-lost-wake-up hold in EVERY phase; progress holds for as long as reactor.running is True — in particular calls "
+            "issued after stop() while shutdown is pending run exactly once, in order, within mu reactor-only steps, the reactor "
+            "still running (calls_run_while_shutdown_pending), an idle-issued call within 5 steps in every running phase; the reactor "
+            "stops running only through a call that fires the Deferred.  The models are run against the real code on every schedule of the tie.",
     "note": "PARTIAL by nature: OS scheduling and GIL atomicity are assumed to refine the step relation; doIteration/asyncio loop are stubs "
             "in the deterministic tie; real reactors with real threads give supporting evidence only",
     "technique": "Lean 4 invariant proof over an interleaving step relation + deterministic schedule-driven differential tie on the real "
@@ -101,17 +131,24 @@ def enc_sched(toks):
 # deterministic harness
 
 class _Call:
-    def __init__(self, h, t, i, raises):
-        self.h, self.tag, self.raises = h, (t, i), raises
+    def __init__(self, h, t, i, raises, eff=None):
+        self.h, self.tag, self.raises, self.eff = h, (t, i), raises, eff
 
     def __call__(self):
         self.h.ran.append(self.tag)
+        if self.eff == "s":
+            self.h.reactor.stop()              # REAL code; ReactorNotRunning (second stop) is the call's own failure
+        elif self.eff == "f":
+            self.h.D.callback(None)            # the Deferred the 'before shutdown' trigger returned
+        elif self.eff == "g":
+            self.h.G.callback(None)            # the Deferred a 'before startup' trigger returned (oracle-only cases)
         if self.raises:
             raise RuntimeError("call raises (must not disturb the drain)")
 
 
 class _Harness:
-    def __init__(self, tokens, raising=()):
+    def __init__(self, tokens, raising=(), eff=None, life=False):
+        self.eff, self.life, self.D, self.cur_timeout = dict(eff or {}), life, None, None
         self.tokens, self.pos = tokens, 0
         self.exhausted, self.snap = False, None
         self.issued, self.pendingw = collections.Counter(), {}
@@ -151,14 +188,15 @@ class _Harness:
         self.issued[t] += 1
         self.current, self.acc = t, []
         try:
-            self.reactor.callFromThread(_Call(self, t, i, f"{t}.{i}" in self.raising))    # REAL code
+            self.reactor.callFromThread(_Call(self, t, i, f"{t}.{i}" in self.raising, self.eff.get(f"{t}.{i}")))  # REAL code
         finally:
             self.current = None
         acc, self.acc = self.acc, []
-        if acc:
-            acc.pop(0)()
-        if acc:
-            self.pendingw[t] = acc
+        # a call is always two tokens of its thread (append; wake-up), whatever the code under test did: the first
+        # access now, everything else (nothing at all, if the code made no second access) at the thread's next token
+        first, rest = (acc[0], acc[1:]) if acc else ((lambda: None), [])
+        first()
+        self.pendingw[t] = [lambda: [a() for a in rest]]
 
     def snapshot(self):
         q = [e[0].tag for e in list.__iter__(self.queue) if isinstance(e[0], _Call)]
@@ -166,8 +204,36 @@ class _Harness:
         done = self.done if self.pc in ("fetch", "del") else 0
         show = lambda l: ",".join(f"{t}.{i}" for t, i in l) if l else "-"
         pw = sorted(self.pendingw)
-        return (f"ran={show(self.ran)}|queue={show(q)}|waker={w}|pc={self.pc}|done={done}"
-                f"|blocked={1 if self.pc == 'poll' and w == 0 else 0}|pw={','.join(map(str, pw)) if pw else '-'}")
+        out = (f"ran={show(self.ran)}|queue={show(q)}|waker={w}|pc={self.pc}|done={done}"
+               f"|blocked={1 if self.pc == 'poll' and w == 0 and self.cur_timeout is None else 0}"
+               f"|pw={','.join(map(str, pw)) if pw else '-'}")
+        if self.life:
+            r = self.reactor
+            phase = ("exited" if self.pc == "exited" else "crashed" if not r._started else
+                     "stopping" if r._justStopped else "pending" if r._stopped else "running")
+            out += f"|phase={phase}|fired={1 if self.D.called else 0}|running={1 if r.running else 0}"
+        return out
+
+    def install_life(self, fired):
+        """the application: ONE 'before shutdown' trigger that returns a Deferred (\"the workers have finished\")"""
+        from twisted.internet.defer import Deferred
+        self.D = Deferred()
+        if fired:
+            self.D.callback(None)
+        self.reactor.addSystemEventTrigger("before", "shutdown", lambda: self.D)
+
+    def pre_run(self, n):
+        """the first n tokens (producer steps) happen BEFORE reactor.run()"""
+        for _ in range(n):
+            if self.pos >= len(self.tokens) or self.tokens[self.pos] == "R":
+                break
+            self.pos += 1
+            self.thread_step(self.tokens[self.pos - 1])
+
+    def after_exit(self):
+        """mainLoop returned: the reactor's tokens are no-ops, producers go on"""
+        while not self.exhausted:
+            self.point("exited")
 
 
 class _HookList(list):
@@ -275,9 +341,13 @@ class _StubReactor(ReactorBase):
         self._realWaker = real
         self.waker = _WakerProxy(self._h, real, True)
 
+    def removeAll(self):
+        return []
+
     def doIteration(self, t):
         h = self._h
-        h.timeouts.append(t)
+        h.timeouts.append((t, self.running))
+        h.cur_timeout = t
         while True:
             h.point("poll")
             if h.exhausted:
@@ -288,23 +358,35 @@ class _StubReactor(ReactorBase):
                     break
                 self.waker.doRead()
                 return
+            if t is not None:
+                return                # doIteration(0): nothing readable, no sleep
             # not readable: the reactor sleeps; this R token was a stutter
         self._started = False
 
 
 def _run_base(c):
     toks = dec_sched(c["sched"])
-    h = _Harness(toks, c.get("raise", ()))
+    h = _Harness(toks, c.get("raise", ()), c.get("eff"), _is_life(c))
     h.timeouts = []
     r = _StubReactor(h, c.get("cap", 65536))
     try:
         h.reactor = r
         h.queue = r.threadCallQueue = _HookList(h)
         h.waker_count = lambda: _fionread(r._realWaker.i)
+        if h.life:
+            h.install_life(c.get("fired", 0))
+        if c.get("starting"):
+            # run() was called but startup waits for a Deferred: reactor.running is still False, mainLoop spins
+            # (doIteration(0)) instead of sleeping, and thread calls are served all the same
+            from twisted.internet.defer import Deferred
+            h.G = Deferred()
+            r.addSystemEventTrigger("before", "startup", lambda: h.G)
+        h.pre_run(c.get("pre", 0))
         r.startRunning(installSignalHandlers=False)
         r.mainLoop()
-        if any(t is not None for t in h.timeouts):
-            return "!timeout-not-None"
+        h.after_exit()
+        if any(t is not None for t, running in h.timeouts if running):
+            return "!timeout-not-None"       # no timers, no I/O: a running reactor must be willing to sleep
         return h.snap
     finally:
         r._realWaker.connectionLost(None)
@@ -393,7 +475,7 @@ def _clock(kind):
 def _run_asyncio(c):
     from twisted.internet.asyncioreactor import AsyncioSelectorReactor
     toks = dec_sched(c["sched"])
-    h = _Harness(toks, c.get("raise", ()))
+    h = _Harness(toks, c.get("raise", ()), c.get("eff"), _is_life(c))
     loop = _FakeLoop(h)
     r = AsyncioSelectorReactor(loop)
     real = r.waker
@@ -401,8 +483,13 @@ def _run_asyncio(c):
         r.waker = _WakerProxy(h, real, False)
         h.reactor = r
         h.queue = r.threadCallQueue = _HookList(h)
-        h.waker_count = lambda: len(loop.ready)
+        # pending handles: ready ones + timers already due (moved to `ready` at the next poll)
+        h.waker_count = lambda: (len(loop.ready)
+                                 + sum(1 for x in loop.timers if not x.cancelled and x.when <= loop.now))
         r.seconds = _clock(c.get("clock", "frozen"))
+        if h.life:
+            h.install_life(c.get("fired", 0))
+        h.pre_run(c.get("pre", 0))
         r.startRunning(installSignalHandlers=False)
         while True:
             h.point("poll")
@@ -491,6 +578,119 @@ reactor.run(installSignalHandlers=False)
 report("done")
 '''
 
+# -- real reactors, real threads, the reactor's whole run: calls issued after stop() while shutdown is pending ---------
+
+_REAL_LIFE = r'''
+import sys, os, json, threading, time
+sys.path.insert(0, sys.argv[1])
+kind, before, after, first, longer = sys.argv[2], int(sys.argv[3]), int(sys.argv[4]), float(sys.argv[5]), float(sys.argv[6])
+if kind == "select":
+    from twisted.internet import selectreactor as m
+elif kind == "poll":
+    from twisted.internet import pollreactor as m
+elif kind == "epoll":
+    from twisted.internet import epollreactor as m
+else:
+    from twisted.internet import asyncioreactor as m
+    import asyncio
+    asyncio.set_event_loop(asyncio.new_event_loop())
+m.install()
+from twisted.internet import reactor
+from twisted.internet.defer import Deferred
+
+D = Deferred()                      # "the workers have finished": shutdown waits for it
+reactor.addSystemEventTrigger("before", "shutdown", lambda: D)
+ran, stuck, slow, state = [], [], [], {"issued": 0, "pending_running": None, "tag": "done"}
+reactor_thread = []
+
+def poke():
+    # an event for the loop that is NOT a callFromThread (what "an unrelated event" would be)
+    if kind == "asyncio":
+        reactor._asyncioEventloop.call_soon_threadsafe(reactor.runUntilCurrent)
+    else:
+        reactor.waker.wakeUp()
+
+def issue(seq, extra=None):
+    ev = threading.Event()
+    def call():
+        ran.append((seq, threading.get_ident()))
+        ev.set()
+        if extra is not None:
+            extra()
+    state["issued"] = seq + 1
+    reactor.callFromThread(call)
+    if ev.wait(first):
+        return
+    # not run yet.  A loaded machine, or a call nobody is going to run?  Look much longer before concluding anything,
+    if len(stuck) < 2 and ev.wait(longer):
+        slow.append(seq)
+        return
+    # and then see whether an unrelated event is what it was waiting for
+    poke()
+    if ev.wait(longer):
+        stuck.append(seq)
+    else:
+        slow.append(seq)                 # the reactor thread does not get to run at all: no verdict
+        state["tag"] = "starved"
+
+def producer():
+    seq = 0
+    for _ in range(before):
+        issue(seq); seq += 1
+        time.sleep(0.005)
+    issue(seq, reactor.stop); seq += 1
+    time.sleep(0.25)                    # the reactor goes idle: shutdown pending, nothing else to do
+    state["pending_running"] = bool(reactor.running)
+    for i in range(after):
+        if state["tag"] == "starved":
+            break
+        issue(seq, (lambda: D.callback(None)) if i == after - 1 else None); seq += 1
+        time.sleep(0.02)
+
+def report():
+    seqs = [q for q, _ in ran]
+    out = {"tag": state["tag"], "issued": state["issued"], "ran": len(seqs), "once": len(seqs) == len(set(seqs)),
+           "order": seqs == sorted(seqs), "complete": seqs == list(range(state["issued"])),
+           "inthread": bool(reactor_thread) and all(th == reactor_thread[0] for _, th in ran),
+           "stuck": stuck, "slow": slow, "pending_running": state["pending_running"]}
+    sys.stdout.write(json.dumps(out) + "\n"); sys.stdout.flush()
+
+def watchdog():
+    time.sleep(float(sys.argv[7]))
+    state["tag"] = "deadline"; report(); os._exit(3)
+
+def start():
+    reactor_thread.append(threading.get_ident())
+    p = threading.Thread(target=producer, daemon=True); state["producer"] = p; p.start()
+
+threading.Thread(target=watchdog, daemon=True).start()
+reactor.callWhenRunning(start)
+reactor.run(installSignalHandlers=False)
+state["producer"].join(5)
+report()
+'''
+
+
+def _run_reallife(c):
+    first, longer, deadline = c.get("first", 4.0), c.get("longer", 20.0), 170
+    try:
+        p = subprocess.run([sys.executable, "-c", _REAL_LIFE, SRC, c["reactor"], str(c["before"]), str(c["after"]),
+                            str(first), str(longer), str(deadline)], capture_output=True, text=True, timeout=deadline + 30,
+                           env={**os.environ, "PYTHONWARNINGS": "ignore"})
+    except subprocess.TimeoutExpired:
+        return "inconclusive: subprocess timeout"
+    lines = [ln for ln in p.stdout.splitlines() if ln.startswith("{")]
+    if not lines:
+        return "inconclusive: no report (rc=%s) %s" % (p.returncode, p.stderr.strip()[-200:].replace("\n", " / "))
+    j = json.loads(lines[-1])
+    ok = lambda b: "ok" if b else "no"
+    s = (f"issued={j['issued']}|ran={j['ran']}|once={ok(j['once'])}|order={ok(j['order'])}|inthread={ok(j['inthread'])}"
+         f"|stuck={len(j['stuck'])}|slow={len(j['slow'])}|runningwhilepending={ok(j['pending_running'])}")
+    if j["tag"] != "done" or not j["complete"] or j["slow"] or j["stuck"]:
+        return "inconclusive: " + s      # the oracle still reads the safety fields, and `stuck` (confirmed twice) only
+    return s
+
+
 _real_notes = []
 
 
@@ -529,10 +729,30 @@ def run_impl(c):
         return _run_base(c)
     if c["kind"] == "asyncio":
         return _run_asyncio(c)
+    if c["kind"] == "reallife":
+        return _run_reallife(c)
     return _run_real(c)
 
 
+def _is_life(c):
+    """the case exercises the reactor's life cycle (stop / pending shutdown / crash): life-cycle model and observables"""
+    return bool(c.get("life") or c.get("eff") or c.get("fired") or c.get("starting"))
+
+
+def _effs(c):
+    e = c.get("eff") or {}
+    return ",".join(f"{k}:{e[k]}" for k in sorted(e, key=lambda k: tuple(map(int, k.split("."))))) if e else "-"
+
+
 def model_line(c):
+    if c["kind"] == "reallife":
+        return None                 # oracle-only (supporting evidence): real loop, real threads, whole life cycle
+    if c.get("starting"):
+        return None                 # oracle-only: the 'startup pending' phase (reactor.running False, loop spinning) is not modelled
+    if c["kind"] in ("base", "asyncio") and _is_life(c):
+        cfg = f"{c.get('cap', 65536)} {CHUNK} 1 check1 0" if c["kind"] == "base" else \
+              f"0 1 0 poll {0 if c.get('clock', 'frozen') == 'back' else 1}"
+        return f"lrun {cfg} {1 if c.get('fired') else 0} {_effs(c)} {c['sched']}"
     if c["kind"] == "base":
         return f"run {c.get('cap', 65536)} {CHUNK} 1 check1 {c['sched']}"
     if c["kind"] == "asyncio":
@@ -542,6 +762,8 @@ def model_line(c):
 
 
 def compare(c, io, mo):
+    if c["kind"] == "reallife":
+        return True
     if c["kind"] == "real" and io.startswith("inconclusive"):
         return True
     return io == mo
@@ -551,6 +773,12 @@ def _parse(out):
     f = dict(kv.split("=", 1) for kv in out.split("|"))
     calls = lambda s: [] if s == "-" else [tuple(map(int, x.split("."))) for x in s.split(",")]
     return calls(f["ran"]), calls(f["queue"]), int(f["waker"]), f["pc"], f["blocked"] == "1"
+
+
+def _running(out):
+    """`reactor.running` at the end of the schedule (cases without life cycle: the reactor never stops)"""
+    f = dict(kv.split("=", 1) for kv in out.split("|"))
+    return f.get("running", "1") == "1"
 
 
 def _sched_facts(c):
@@ -572,6 +800,22 @@ def settle_len(n_issued):
 
 def oracle(c, out):
     """The property on the implementation's behaviour; independent of the Lean model and of the queue's representation."""
+    if c["kind"] == "reallife":
+        body = out.split(": ", 1)[1] if out.startswith("inconclusive: ") else out
+        if "=" not in body:
+            return None
+        f = dict(kv.split("=", 1) for kv in body.split("|"))
+        for k in ("once", "order", "inthread"):
+            if f.get(k) == "no":
+                return {"key": f"real-{k}", "detail": f"{c['reactor']} reactor, stop() then calls while shutdown is pending: {body}"}
+        # timing is never a verdict on its own: a call counts as "waited for an unrelated event" only if it had not run
+        # after first+longer seconds on an idle reactor AND ran as soon as the loop got an unrelated event — seen TWICE
+        if int(f.get("stuck", 0)) >= 2 and f.get("runningwhilepending") == "ok":
+            return {"key": "real-idle-call-waited-for-unrelated-event",
+                    "detail": f"{c['reactor']} reactor: calls issued after reactor.stop() while shutdown was pending on a Deferred "
+                              f"(reactor.running True, loop idle) did not run for {c.get('first', 4.0) + c.get('longer', 20.0):.0f}s "
+                              f"and ran as soon as the loop was woken by something else: {body}"}
+        return None
     if c["kind"] == "real":
         body = out.split(": ", 1)[1] if out.startswith("inconclusive: ") else out
         if "=" not in body:
@@ -586,6 +830,12 @@ def oracle(c, out):
     ran, queue, waker, pc, blocked = _parse(out)
     toks, issued, mid, tail = _sched_facts(c)
     where = f"{c['kind']} sched={c['sched']}" + (f" clock={c.get('clock', 'frozen')}" if c["kind"] == "asyncio" else "")
+    if _is_life(c) or c.get("pre"):
+        f = dict(kv.split("=", 1) for kv in out.split("|"))
+        where += (f" [calls' bodies: {_effs(c)} (s = reactor.stop(), f = fires the 'before shutdown' Deferred); "
+                  f"first {c.get('pre', 0)} producer steps before run(); at the end reactor.running={f.get('running', '1')}, "
+                  f"phase={f.get('phase', 'running')}]")
+    running = _running(out)          # the property speaks about a reactor that runs: liveness is asked only then
     if len(set(ran)) != len(ran):
         return {"key": "ran-twice", "detail": f"{where}: ran={ran}"}
     for t, i in ran:
@@ -596,15 +846,17 @@ def oracle(c, out):
         if mine != list(range(len(mine))):
             return {"key": "order", "detail": f"{where}: thread {t}'s calls ran in order {mine}"}
     n_issued = sum(issued.values())
-    if blocked and len(ran) < n_issued and not mid:
-        return {"key": "lost-wakeup", "detail": f"{where}: reactor asleep, every callFromThread has returned, "
+    if blocked and running and len(ran) < n_issued and not mid:
+        return {"key": "lost-wakeup", "detail": f"{where}: reactor asleep (reactor.running is True), every callFromThread has returned, "
                                                 f"{n_issued - len(ran)} call(s) not run"}
-    if not mid and tail >= settle_len(n_issued) and len(ran) < n_issued:
+    if running and not mid and tail >= settle_len(n_issued) and len(ran) < n_issued:
         return {"key": "not-run", "detail": f"{where}: {n_issued - len(ran)} call(s) still not run after {tail} reactor-only steps"}
     return None
 
 
 def tag(c, out):
+    if c["kind"] == "reallife":
+        return f"reallife:{c['reactor']}:{'stuck' if '|stuck=0|' not in out else 'inconclusive' if out.startswith('inconclusive') else 'ok'}"
     if c["kind"] == "real":
         return f"real:{c['reactor']}:{c['threads']}t:{'inconclusive' if out.startswith('inconclusive') else 'ok'}"
     if out is None or out.startswith("!"):
@@ -615,11 +867,21 @@ def tag(c, out):
     wcls = "0" if waker == 0 else "1" if waker == 1 else "cap" if waker == c.get("cap", 65536) else ">8192" if waker > CHUNK else "2+"
     return (f"{c['kind']}{':' + c.get('clock', 'frozen') if c['kind'] == 'asyncio' else ''}:{len(issued)}t:pc={pc}:"
             f"{'blocked' if blocked else 'awake'}:w{wcls}:q{min(len(queue), 3)}:ran{'all' if len(ran) == n else 'some' if ran else '0'}:"
-            f"{'mid' if mid else 'ret'}:{'settled' if tail >= settle_len(n) else 'cut'}:{'raise' if c.get('raise') else ''}")
+            f"{'mid' if mid else 'ret'}:{'settled' if tail >= settle_len(n) else 'cut'}:{'raise' if c.get('raise') else ''}"
+            + _life_tag(c, out))
+
+
+def _life_tag(c, out):
+    if not (_is_life(c) or c.get("pre")):
+        return ""
+    f = dict(kv.split("=", 1) for kv in out.split("|"))
+    effs = "".join(sorted(set((c.get("eff") or {}).values())))
+    return (f":life:{f.get('phase', '-')}:fired{f.get('fired', '-')}:eff{effs}:{'pre' if c.get('pre') else ''}"
+            f":{'starting:run' + f.get('running', '-') if c.get('starting') else ''}")
 
 
 def nontrivial(c, out):
-    return c["kind"] == "real" or bool(dec_sched(c["sched"]))
+    return c["kind"] in ("real", "reallife") or bool(dec_sched(c["sched"]))
 
 
 # ------------------------------------------------------------------------------------------
@@ -641,8 +903,70 @@ def _aio(toks, clock="frozen", **kw):
     return {"kind": "asyncio", "clock": clock, "sched": enc_sched(toks), **kw}
 
 
+def _life(toks, eff=None, kind="base", **kw):
+    c = {"kind": kind, "life": 1, "sched": enc_sched(toks), **kw}
+    if eff:
+        c["eff"] = dict(eff)
+    if kind == "asyncio":
+        c.setdefault("clock", "frozen")
+    return c
+
+
+def _life_corpus():
+    S, F = {"0.0": "s"}, {"0.0": "s", "1.0": "f"}
+    return [
+        # stop() has run, shutdown waits for the Deferred, the loop is idle; another thread then issues a call
+        # (the history of seeded/C13-2): it must wake the loop although `_stopped` is already True
+        _life([0, 0] + ["R"] * 12 + [1, 1] + ["R"] * 30, S),
+        _life(_settled([0, 0] + ["R"] * 7 + [1, 1] + ["R"] * 9 + [2, 2, 1, 1]), S),
+        # ... and the call after that fires the Deferred: crash, one non-blocking doIteration, exit; a later call stays queued
+        _life([0, 0] + ["R"] * 12 + [1, 1] + ["R"] * 8 + [1, 1] + ["R"] * 12 + [0, 0] + ["R"] * 5, {"0.0": "s", "1.1": "f"}),
+        # the append falls into the pass that runs stop() (after `total`), the wake-up arrives after shutdown fired:
+        # the reactor's own post-drain wakeUp() happens while `_justStopped` is set
+        _life([0, 0, "R", "R", 1, "R", "R", "R", "R", "R", "R", "R", 1] + ["R"] * 24, S),
+        _life([0, 0, "R", "R", 1, 1] + ["R"] * 30, S),
+        # the Deferred fired before stop(): shutdown completes in the pass that ran stop(); calls behind it in the pass still run
+        _life(_settled([0, 0, 0, 0, 1, 1]), S, fired=1),
+        _life(_settled([1, 1, 0, 0, 0, 0, "R", "R", "R", 1, 1]), F),
+        # two stop()s (the second raises ReactorNotRunning inside the call), two fires (AlreadyCalledError)
+        _life(_settled([0] * 4 + [1] * 2 + ["R"] * 3 + [1] * 2), {"0.0": "s", "0.1": "s", "1.0": "f", "1.1": "f"}),
+        # calls issued before run(): picked up by the first pass, their wake-ups are read by the first doIteration
+        _life(_settled([0] * 4 + [1] * 2 + ["R"] * 3 + [1] * 2), {"0.1": "s"}, pre=5),
+        _base(_settled([0, 0, 1, 1, 0]), pre=5),
+        _aio(_settled([0, 0, 1, 1, 0]), clock="frozen", pre=5),
+        # startup pending (oracle-only): calls are served by the spinning loop; call 0.1 lets the startup complete
+        _life(_settled([0, 0, "R", "R", 1, 1] + ["R"] * 9 + [0, 0, 1, 1]), {"0.1": "g"}, starting=1),
+        _life(_settled([0, 0, "R", "R", 1, 1] + ["R"] * 9 + [0, 0, 1, 1]), {}, starting=1),
+        # asyncio: stop() schedules callLater(0): one more handle (none if the clock runs backwards)
+        _life([0, 0] + ["R"] * 5 + [1, 1] + ["R"] * 10, S, kind="asyncio", clock="frozen"),
+        _life(_settled([0, 0] + ["R"] * 5 + [1, 1]), S, kind="asyncio", clock="back"),
+        _life(_settled([0, 0, 1, 1, "R", "R", 1, 1] + ["R"] * 9 + [0, 0]), {"1.0": "s"}, kind="asyncio", clock="ticking"),
+    ]
+
+
+def _life_family():
+    """thread 0's first call does reactor.stop(); thread 1 appends `a` reactor steps later (every pc of the pass that runs
+    stop(), of the end of that pass where shutdown fires, and of the idle loop behind it) and wakes `j` steps later"""
+    for a in range(0, 14):
+        for j in (0, 1, 2, 3, 5, 8):
+            yield [0, 0] + ["R"] * a + [1] + ["R"] * j + [1] + ["R"] * 6 + [0, 0] + ["R"] * 26
+
+
+def _life_effs(rng, toks, nthreads, fire_ok=True):
+    """effects for a random schedule: one early call stops the reactor (so that most of the schedule runs with shutdown
+    pending); sometimes a later one fires the Deferred; sometimes a second stop / fire"""
+    eff = {}
+    ts = sorted({t for t in toks if t != "R"}) or [0]
+    eff[f"{rng.choice(ts)}.{rng.choice([0, 0, 0, 1, 2])}"] = "s"
+    if fire_ok and rng.random() < 0.45:
+        eff.setdefault(f"{rng.choice(ts)}.{rng.choice([0, 1, 2, 3, 5, 8])}", "f")
+    if rng.random() < 0.15:
+        eff.setdefault(f"{rng.choice(ts)}.{rng.randrange(4)}", rng.choice("sf") if fire_ok else "s")
+    return eff
+
+
 def corpus():
-    out = [
+    out = _life_corpus() + [
         # asyncio reactor, frozen clock (coarse timer / calls within one tick): 4+ calls of one thread ran out of order
         # before the fix (callFromThread went through callLater(0), i.e. an unstable heap keyed by time alone)
         _aio(_settled([0] * 16)),
@@ -729,6 +1053,53 @@ def generate(rng, tier):
             yield _aio(toks, clock=rng.choice(["frozen", "frozen", "ticking", "back"]), **kw)
         else:
             yield _base(toks, **kw)
+    # the reactor's life cycle: stop() -> shutdown pending on a Deferred -> crash -> exit, calls issued in every phase
+    S = {"0.0": "s"}
+    for sch in _all_scheds(["R", 0], 9 if quick else 10):
+        yield _life(sch, S)
+    for sch in _all_scheds(["R", 0], 8 if quick else 9):
+        yield _life(sch, {"0.0": "s", "0.1": "f"})
+        if len(sch) <= 7:
+            yield _life(sch, S, kind="asyncio", clock="frozen")
+    for sch in _all_scheds(["R", 0, 1], 5 if quick else 7):
+        yield _life(sch + ["R"] * 3 + [1, 1] + ["R"] * 5, {"0.0": "s", "1.1": "f"})
+    for sch in _life_family():
+        yield _life(sch, S)
+        yield _life(sch, {"0.0": "s", "1.0": "f"})
+        yield _life(sch, {"0.0": "s", "0.1": "f"})
+        yield _life(sch, S, fired=1)
+        yield _life(sch, S, kind="asyncio", clock=rng.choice(["frozen", "ticking", "back"]))
+    for i in range(700 if quick else 8000):
+        k = rng.choice([1, 2, 2, 3, 4, 6])
+        toks = _random(rng, k, rng.choice([8, 12, 25, 40, 80]))
+        aio = i % 4 == 3
+        kw = {}
+        if rng.random() < 0.2:                      # some producer steps before run()
+            pre = [rng.randrange(k) for _ in range(rng.randint(1, 6))]
+            toks, kw["pre"] = pre + toks, len(pre)
+        if rng.random() < 0.6:
+            toks = _settled(toks)
+        if rng.random() < 0.1 and not aio:
+            kw["fired"] = 1
+        if rng.random() < 0.1:
+            kw["raise"] = [f"{rng.randrange(k)}.{rng.randrange(4)}" for _ in range(2)]
+        eff = _life_effs(rng, toks, k, fire_ok=not aio)
+        if aio:
+            yield _life(toks, eff, kind="asyncio", clock=rng.choice(["frozen", "frozen", "ticking", "back"]), **kw)
+        else:
+            yield _life(toks, eff, **kw)
+    # run() called, startup pending on a Deferred (reactor.running False, the loop spins): oracle-only.  Thread t's call 0
+    # completes the startup at most; a stop() comes later in the SAME thread, i.e. after it
+    for i in range(120 if quick else 1000):
+        k = rng.choice([1, 2, 3, 4])
+        toks = _random(rng, k, rng.choice([8, 12, 25, 40]))
+        if rng.random() < 0.6:
+            toks = _settled(toks)
+        t = rng.randrange(k)
+        eff = {f"{t}.{rng.choice([0, 0, 1, 3])}": "g"} if rng.random() < 0.7 else {}
+        if eff and rng.random() < 0.4:
+            eff[f"{t}.{rng.choice([4, 5, 7])}"] = "s"
+        yield _life(toks, eff, starting=1)
     # real reactors, real threads: supporting evidence
     rs = _reactors()
     if quick:
@@ -737,10 +1108,13 @@ def generate(rng, tier):
         plan = [(r, t, 10000 // t) for r in rs for t in (1, 4, 16)] + [(r, 7, 300) for r in rs] * 2
     for j, (r, t, m) in enumerate(plan):
         yield {"kind": "real", "reactor": r, "threads": t, "calls": m, "seed": rng.randrange(10**6) + j}
+    # the same with the whole life cycle: calls before stop(), stop(), calls while shutdown is pending, the last fires it
+    for r in ([rs[rng.randrange(len(rs))]] if quick else rs):
+        yield {"kind": "reallife", "reactor": r, "before": rng.randint(1, 6), "after": rng.randint(3, 6)}
 
 
 def shrink(c):
-    if c["kind"] == "real":
+    if c["kind"] in ("real", "reallife"):
         return
     toks = dec_sched(c["sched"])
     if len(toks) > 400:
@@ -752,8 +1126,11 @@ def shrink(c):
         for a in range(0, len(toks) - size + 1, max(1, size // 2)):
             yield {**c, "sched": enc_sched(toks[:a] + toks[a + size:])}
         size //= 2
-    if c.get("raise"):
-        yield {k: v for k, v in c.items() if k != "raise"}
+    for key in ("raise", "pre", "fired"):
+        if c.get(key):
+            yield {k: v for k, v in c.items() if k != key}
+    for e in sorted(c.get("eff") or {}):
+        yield {**c, "eff": {k: v for k, v in c["eff"].items() if k != e}}
 
 
 def search(rng, tier, disagreeing):
